@@ -194,3 +194,170 @@ Proof.
   destruct (round_len zz sb z' ltac:(rewrite Hpzz; unfold PB, MaxPrec in *; lia) Hzl Hr Hf) as [Hlen _].
   rewrite Hpzz in Hlen. lia.
 Qed.
+
+(* ------------------------------------------------------------------ *)
+(* SetUint64, SetPrec on fresh values *)
+
+Lemma setExpAndRound_round z e sb z' : MinExp <= e <= MaxExp ->
+  setExpAndRound z e sb = Some z' -> round (with_exp (with_form z Ffinite) e) sb = Some z'.
+Proof.
+  intros He H. unfold setExpAndRound in H.
+  replace (e <? MinExp) with false in H by (symmetry; apply Z.ltb_ge; lia).
+  replace (MaxExp <? e) with false in H by (symmetry; apply Z.ltb_ge; lia).
+  rewrite i32_small in H by exact He. exact H.
+Qed.
+
+Lemma SetUint64_G z n : 1 <= prec z <= PB -> 0 < n < 18446744073709551616 ->
+  exists z', SetUint64 z n = OkR z' /\ Gd z' /\ prec z' = prec z /\ dmode z' = dmode z.
+Proof.
+  intros Hp Hn. unfold SetUint64, setBits64.
+  replace (prec z =? 0) with false by (symmetry; apply Z.eqb_neq; lia).
+  replace (n =? 0) with false by (symmetry; apply Z.eqb_neq; lia).
+  destruct (dnorm_of_Z n ltac:(lia)) as (m' & s & Ed & Hs & Vm & Okm & Nem & Topm & Hexp & Hmd).
+  rewrite Ed.
+  assert (Hnd : 1 <= ndig n <= 20).
+  { destruct (ndig_spec n ltac:(lia)) as [H1 [Hlo _]]. split; [lia|].
+    destruct (Z.le_gt_cases (ndig n) 20); [assumption|exfalso].
+    assert (10 ^ 20 <= 10 ^ (ndig n - 1)) by (apply Z.pow_le_mono_r; lia). lia. }
+  change (clampExp 0) with 0. rewrite Z.add_0_l, Hexp.
+  set (zz := with_mant (with_form (with_neg (with_acc z Exact) false) Ffinite) m').
+  pose proof (setExpAndRound_correct zz (ndig n) false (scaled n 0)) as HC.
+  assert (HNM : NormMant (mant zz)) by (constructor; cbn [mant zz with_mant]; try assumption; lia).
+  assert (Hx : ndig n - mdigits (mant zz) = - s) by (cbn [mant zz with_mant]; lia).
+  assert (HQ : (scaled (val (mant zz)) (- s) == scaled n 0)%Q).
+  { cbn [mant zz with_mant]. rewrite Vm, scaled_pow by lia. replace (- s + s) with 0 by lia. reflexivity. }
+  cbv zeta in HC. rewrite Hx in HC.
+  destruct HC as (z' & Hr & Hspec & Hpz & Hmz & Hwf).
+  - exact HNM.
+  - cbn [prec zz with_mant with_form with_neg with_acc]. unfold PB, MaxPrec in *. lia.
+  - rewrite HQ. apply Qle_refl.
+  - rewrite <- HQ. apply scaled_lt_same. lia.
+  - intros _. symmetry. exact HQ.
+  - discriminate.
+  - cbn [b2z] in Hr. rewrite Hr. cbn [of_opt]. exists z'.
+    cbn [prec dmode neg zz with_mant with_form with_neg with_acc] in Hspec, Hpz, Hmz.
+    split; [reflexivity|]. split; [|split; assumption].
+    assert (Hv : (scaled 1 0 <= scaled n 0)%Q) by (apply scaled_le_same; lia).
+    destruct (result_spec_ge1 (prec z) (dmode z) _ z' ltac:(lia) Hv Hspec) as [Hneg Hform].
+    constructor; [exact Hwf|exact Hneg|lia|].
+    destruct Hform as [Hi|(Hf & Hm)]; [left; exact Hi|right].
+    split; [exact Hf|]. split; [exact Hm|].
+    pose proof (setExpAndRound_round zz (ndig n) 0 z' ltac:(unfold MinExp, MaxExp; lia) Hr) as Hrr.
+    assert (Hp1 : 1 <= prec (with_exp (with_form zz Ffinite) (ndig n)) <= MaxPrec - 18).
+    { unfold zz. cbn [prec with_exp with_mant with_form with_neg with_acc]. unfold PB, MaxPrec in *. lia. }
+    assert (Hl1 : 19 * zlen (mant (with_exp (with_form zz Ffinite) (ndig n))) < 4294967296).
+    { unfold zz. cbn [mant with_exp with_mant with_form]. unfold mdigits in Hmd. cbv [DW] in Hmd. lia. }
+    destruct (round_len _ 0 z' Hp1 Hl1 Hrr Hf) as [Hl _].
+    unfold zz in Hl. cbn [prec with_exp with_mant with_form with_neg with_acc] in Hl. lia.
+Qed.
+
+Lemma SetPrec_zero q : 1 <= q <= MaxPrec ->
+  SetPrec dec_zero q = OkR (mkDec [] 0 q ToNearestEven Exact Fzero false).
+Proof.
+  intros Hq. unfold SetPrec. replace (q =? 0) with false by (symmetry; apply Z.eqb_neq; lia).
+  replace (MaxPrec <? q) with false by (symmetry; apply Z.ltb_ge; lia).
+  cbn [prec dec_zero with_acc with_prec]. replace (q <? 0) with false by (symmetry; apply Z.ltb_ge; lia).
+  reflexivity.
+Qed.
+
+(* ------------------------------------------------------------------ *)
+(* pow2 *)
+
+Lemma pow2_loop_G fuel : forall z f n, Gd z -> Gd f ->
+  exists z', pow2_loop fuel z f n = OkR z' /\ Gd z' /\ prec z' = prec z.
+Proof.
+  induction fuel as [|k IH]; intros z f n Gz Gf; [exists z; auto|].
+  cbn [pow2_loop]. destruct (n <=? 0); [exists z; auto|].
+  destruct (Z.odd n).
+  - destruct (Mul_G z z f Gz Gf (g_prec z Gz)) as (z1 & E1 & G1 & P1 & _). rewrite E1. cbn [obind].
+    destruct (n =? 1); [exists z1; auto|].
+    destruct (Mul_G f f f Gf Gf (g_prec f Gf)) as (f1 & E2 & G2 & _). rewrite E2. cbn [obind].
+    destruct (IH z1 f1 (n / 2) G1 G2) as (z' & E & G & P). exists z'. rewrite E. split; [reflexivity|]. split; [exact G|lia].
+  - destruct (Mul_G f f f Gf Gf (g_prec f Gf)) as (f1 & E2 & G2 & _). rewrite E2. cbn [obind].
+    apply IH; assumption.
+Qed.
+
+Lemma pow2_G p0 n : 1 <= prec p0 <= PB - 19 -> 0 <= n < 18446744073709551616 ->
+  exists pw, pow2 p0 n = OkR pw /\ Gd pw.
+Proof.
+  intros Hp Hn. unfold pow2. destruct (Z.ltb_spec n 64) as [Hlt|Hge].
+  - destruct (SetUint64_G p0 (2 ^ n) ltac:(unfold PB in *; lia)) as (z' & E & G & _).
+    + split; [apply Z.pow_pos_nonneg; lia|].
+      change 18446744073709551616 with (2 ^ 64). apply Z.pow_lt_mono_r; lia.
+    + exists z'. auto.
+  - destruct (SetUint64_G p0 (2 ^ 63) ltac:(unfold PB in *; lia) ltac:(split; reflexivity)) as (z1 & E1 & G1 & P1 & _).
+    rewrite E1. cbn [obind]. rewrite P1.
+    rewrite SetPrec_zero by (cbv [DW]; unfold PB, MaxPrec in *; lia). cbn [obind].
+    destruct (SetUint64_G (mkDec [] 0 (prec p0 + DW) ToNearestEven Exact Fzero false) 2) as (f & E2 & G2 & _).
+    + cbn [prec]. cbv [DW]. unfold PB in *. lia.
+    + lia.
+    + rewrite E2. cbn [obind].
+      destruct (pow2_loop_G 64 z1 f (n - 63) G1 G2) as (z' & E & G & _). exists z'. auto.
+Qed.
+
+(* ------------------------------------------------------------------ *)
+(* the last step: the parsed mantissa (not yet rounded) times / over 2^n *)
+
+Lemma Mul_prec_irrel z x y q : prec z <> 0 -> Mul z (with_prec x q) y = Mul z x y.
+Proof.
+  intros Hp. unfold Mul. replace (prec z =? 0) with false by (symmetry; apply Z.eqb_neq; exact Hp).
+  reflexivity.
+Qed.
+
+Lemma Quo_prec_irrel z x y q : prec z <> 0 -> Quo z (with_prec x q) y = Quo z x y.
+Proof.
+  intros Hp. unfold Quo. replace (prec z =? 0) with false by (symmetry; apply Z.eqb_neq; exact Hp).
+  reflexivity.
+Qed.
+
+Theorem pow2_path_total : Pow2PathTotal.
+Proof.
+  intros zz p b rest e10 e2 [Hne Hok Htop Hlen0] Hlen Hp He2 Hrange.
+  unfold scan_finish.
+  destruct ((MinExp <=? e10) && (e10 <=? MaxExp)) eqn:Hin; [|reflexivity].
+  apply andb_true_iff in Hin as [H1 H2]. apply Z.leb_le in H1, H2.
+  replace (e2 =? 0) with false by (symmetry; apply Z.eqb_neq; exact He2).
+  set (z := with_exp (with_form (with_prec zz p) Ffinite) (i32 e10)).
+  assert (Hpz : prec z = p) by reflexivity. rewrite Hpz.
+  rewrite SetPrec_zero by (cbv [DW]; unfold MaxPrec; lia).
+  set (p0 := mkDec [] 0 (p + DW) ToNearestEven Exact Fzero false).
+  (* z with a precision large enough to be canonical *)
+  set (q := Z.max p (mdigits (mant zz))).
+  set (x' := with_prec z q).
+  assert (Hwfx : WF x').
+  { apply WF_intro; unfold x', z; cbn [dform mant prec exp with_prec with_exp with_form]; try assumption; try reflexivity.
+    - unfold q, MaxPrec. lia.
+    - rewrite i32_small by lia. lia.
+    - left. unfold q. lia. }
+  assert (Hfx : dform x' = Ffinite) by reflexivity.
+  assert (Hmx : mant x' = mant zz) by reflexivity.
+  assert (Hu : forall a, 0 <= u64 a < 18446744073709551616) by (intros a; unfold u64; apply Z.mod_pos_bound; lia).
+  assert (Hgood : forall pw, Gd pw ->
+            (exists r, Quo z z pw = OkR r) /\ (exists r, Mul z z pw = OkR r)).
+  { intros pw G. rewrite <- (Quo_prec_irrel z z pw q), <- (Mul_prec_irrel z z pw q) by (rewrite Hpz; lia).
+    fold x'. destruct (g_val pw G) as [Fi|(Ff & _ & Hl)].
+    - unfold Quo, Mul. rewrite Hfx, Fi. replace (prec z =? 0) with false by (symmetry; apply Z.eqb_neq; rewrite Hpz; lia).
+      split; eexists; reflexivity.
+    - pose proof (g_prec pw G) as Hpp. split.
+      + destruct (Quo_correct z x' pw Hwfx (g_wf pw G) Hfx Ff) as (r & E & _).
+        * rewrite Hpz. unfold MaxPrec. lia.
+        * unfold eff_prec. rewrite Hpz. replace (p =? 0) with false by (symmetry; apply Z.eqb_neq; lia).
+          rewrite Hmx. unfold PB in *. lia.
+        * eauto.
+      + destruct (Mul_correct z x' pw Hwfx (g_wf pw G) Hfx Ff) as (r & E & _).
+        * rewrite Hpz. unfold MaxPrec. lia.
+        * rewrite Hmx. unfold PB in *. lia.
+        * eauto. }
+  assert (Hp0 : 1 <= prec p0 <= PB - 19) by (unfold p0; cbn [prec]; cbv [DW]; unfold PB; lia).
+  destruct (e2 <? 0).
+  - destruct (pow2_G p0 (u64 (- e2)) Hp0 (Hu _)) as (pw & E & G). rewrite E.
+    destruct (Hgood pw G) as [(r & Er) _]. rewrite Er. exact I.
+  - destruct (pow2_G p0 (u64 e2) Hp0 (Hu _)) as (pw & E & G). rewrite E.
+    destruct (Hgood pw G) as [_ (r & Er)]. rewrite Er. exact I.
+Qed.
+
+(* C12_total: Parse never panics and every error comes with a nil result *)
+Theorem Parse_total_full z s base :
+  valid_base base = true -> zlen s < 536870912 -> 0 <= prec z <= 1073741824 ->
+  pgood (Parse z s base).
+Proof. intros. apply Parse_total; try assumption. exact pow2_path_total. Qed.
